@@ -20,6 +20,7 @@ pub mod exec;
 pub mod fsio;
 pub mod model;
 pub mod oo;
+pub mod special;
 
 // ------------------------------------------------------------------------------------------
 // strategies
@@ -492,6 +493,19 @@ pub fn run(ctx: &Ctx) {
         }
         if !ctx.has_failure() {
             ctx.note_exhaustive(format!("open-options-grid: all 64 switch combinations x 5 kinds of existing path = {total} cases (split over the workers)"));
+        }
+    }
+    // things whose size stat does not announce: a fifo with a writer, procfs files
+    if let Some(c) = ctx.replay_case::<special::SpecialCase>("read-special") {
+        ctx.run_one("read-special", &c, || special::check(&env, &c));
+    } else if !ctx.is_replay() {
+        for (i, c) in special::cases().iter().enumerate() {
+            if i % ctx.nworkers as usize != ctx.worker as usize {
+                continue;
+            }
+            if !ctx.run_one("read-special", c, || special::check(&env, c)) {
+                break;
+            }
         }
     }
     ctx.run_prop("open-options", ctx.cases(300, 5_000), oo::strategy(), |c: &oo::OoCase| oo::check(&env, c));
